@@ -14,6 +14,7 @@ import IcyVerif.Drv.Palette
 import IcyVerif.Drv.Rip
 import IcyVerif.Drv.Sauce
 import IcyVerif.Drv.Sixel
+import IcyVerif.Drv.SixelLoad
 import IcyVerif.Drv.SixelQueue
 import IcyVerif.Drv.Tdf
 import IcyVerif.Drv.Term
@@ -40,6 +41,7 @@ def dispatch (line : String) : String :=
   | "rip" :: rest => Rip.handle rest
   | "sauce" :: rest => Sauce.handle rest
   | "sixel" :: rest => Sixel.handle rest
+  | "sixelload" :: rest => SixelLoad.handle rest
   | "sixelqueue" :: rest => SixelQueue.handle rest
   | "tdf" :: rest => Tdf.handle rest
   | "term" :: rest => Term.handle rest
